@@ -1472,3 +1472,59 @@ func (f *fn) listsApiserver() bool {
 	})
 	return n == 1
 }
+
+// listIsConsistentRead: the ListOptions handed to the store's List are EMPTY (no resourceVersion / resourceVersionMatch:
+// a quorum read, not an answer from the API server's watch cache, which may lag).
+func (f *fn) listIsConsistentRead() bool {
+	ok, n := false, 0
+	empty := func(e ast.Expr) bool {
+		switch x := unparen(e).(type) {
+		case *ast.CompositeLit:
+			return len(x.Elts) == 0
+		case *ast.Ident:
+			// `var opts metav1.ListOptions` (never assigned) or `opts := metav1.ListOptions{}`
+			declared, assigned := false, false
+			ast.Inspect(f.fd.Body, func(n ast.Node) bool {
+				switch y := n.(type) {
+				case *ast.ValueSpec:
+					for i, nm := range y.Names {
+						if nm.Name == x.Name {
+							declared = len(y.Values) == 0 || (i < len(y.Values) && isEmptyLit(y.Values[i]))
+						}
+					}
+				case *ast.AssignStmt:
+					for i, l := range y.Lhs {
+						if identName(l) == x.Name && i < len(y.Rhs) {
+							if y.Tok == token.DEFINE && isEmptyLit(y.Rhs[i]) {
+								declared = true
+							} else {
+								assigned = true
+							}
+						}
+						if sel, isSel := l.(*ast.SelectorExpr); isSel && identName(sel.X) == x.Name {
+							assigned = true
+						}
+					}
+				}
+				return true
+			})
+			return declared && !assigned
+		}
+		return false
+	}
+	ast.Inspect(f.fd.Body, func(x ast.Node) bool {
+		c, isC := x.(*ast.CallExpr)
+		if !isC || storeVerb(f.p, c) != "list" {
+			return true
+		}
+		n++
+		ok = len(c.Args) == 2 && empty(c.Args[1])
+		return true
+	})
+	return n == 1 && ok
+}
+
+func isEmptyLit(e ast.Expr) bool {
+	c, ok := unparen(e).(*ast.CompositeLit)
+	return ok && len(c.Elts) == 0
+}
